@@ -887,6 +887,15 @@ def gen_store_program(rng, malformed_p=0.3):
                     ops.append(("get", t, rand_g(t)))
                 if rng.random() < 0.4:
                     ops.append(("resetb",))
+    if rng.random() < 0.35:
+        # facts arriving AGAIN after inference moved their rows: re-asserting the very value a row holds as data (or UNKNOWN for a
+        # row inference created at an OPEN default) must bring the row back to it, like any other assertion
+        g, h = [rng.randrange(nc)], [rng.randrange(nc)]
+        wide = ("T", [Fr(1, 4), Fr(3, 4)])
+        ops += [("sadd", 2, "dict", [(g, wide)]), ("sadd", 4, "dict", [(g, ("N", Fr(1, 2)))]), ("infer", 2),
+                ("sadd", 2, "dict", [(g, wide)]), ("get", 2, g)]
+        if h != g:
+            ops += [("sadd", 4, "dict", [(h, ("F", "TRUE"))]), ("infer", 2), ("sadd", 2, "dict", [(h, ("F", "UNKNOWN"))]), ("get", 2, h)]
     return {"kb": desc, "ops": ops}
 
 
@@ -898,7 +907,12 @@ def run_c02(case):
     import itertools
     import impl
     L = impl.lnn()
-    rec = run_fol_program({"kb": case["kb"], "facts": case["facts"], "ops": case["ops"],
+    late = [tuple(f) for f in case.get("late_facts", [])]
+    ops = list(case["ops"])
+    if late:
+        # facts that arrive between two inference calls; the ground theory is the one with the FINAL facts
+        ops = ops + [("fact", f[0], f[1], f[2], f[3]) for f in late] + [("infer", 60)]
+    rec = run_fol_program({"kb": case["kb"], "facts": case["facts"], "ops": ops,
                            "fact_shuffle_seed": case.get("fact_shuffle_seed")})
     kb = FolKB(case["kb"])          # a second, untouched copy only to read structure (operand maps, parameters)
     nc = case["n_consts"]
@@ -906,6 +920,7 @@ def run_c02(case):
     G = {}          # (formula id, grounding tuple) -> lnn object
     model = L.Model()
     facts = {(f[0], tuple(f[1])): (f[2], f[3]) for f in case["facts"]}
+    facts.update({(f[0], tuple(f[1])): (f[2], f[3]) for f in late})
     data = {}
     acts = {"Lukasiewicz": L.NeuralActivation.Lukasiewicz, "LukasiewiczTransparent": L.NeuralActivation.LukasiewiczTransparent}
     for i in kb.order:
@@ -1007,6 +1022,31 @@ def gen_c02_negshare_case(rng):
         facts.append((0, list(rng.choice(gs)), *rand_bounds(rng, 0.5, 0.0)))
     return {"kb": {"preds": preds, "nodes": nodes, "roots": roots}, "facts": facts, "n_consts": nc,
             "ops": [("infer", rng.choice([1, 3, 60]))]}
+
+
+def gen_c02_late_case(rng):
+    """a CLOSED-world premise R and an AXIOM rule R(v) -> S(v): the rule's grounding management materialises R's rows at the
+    default FALSE for every individual S is known for (the rule is vacuous there, so nothing is derived from the default);
+    then R is asserted TRUE for some of them BETWEEN two inference calls. The asserted ground atoms decide the ground theory:
+    the late facts must simply replace the materialised default."""
+    import itertools
+    ar = rng.choice([1, 1, 2])
+    vs = VARS[:ar]
+    preds = [{"id": 0, "arity": ar, "world": "closed"}, {"id": 1, "arity": ar, "world": "open"}]
+    rule = {"id": 2, "kind": "implies", "ops": [[0, list(vs)], [1, list(vs)]], "act": rng.choice(["lukt", "luk"]), "world": "axiom"}
+    nc = rng.randint(2, 3)
+    gs = [list(g) for g in itertools.product(range(nc), repeat=ar)]
+    rng.shuffle(gs)
+    facts, late = [], []
+    for k, g in enumerate(gs):
+        facts.append((1, g, rng.choice([Fr(0), Fr(1, 4), Fr(1, 2)]), ONE))       # S known, open above
+        r = rng.random()
+        if k == 0 or r < 0.4:
+            late.append((0, g, ONE, ONE))                                         # R(g) asserted TRUE after the first inference
+        elif r < 0.6:
+            facts.append((0, g, ONE, ONE))                                        # R(g) TRUE from the start
+    return {"kb": {"preds": preds, "nodes": [rule], "roots": [2]}, "facts": facts, "late_facts": late, "n_consts": nc,
+            "ops": [("infer", 60)]}
 
 
 def gen_c02_case(rng, interp=True):
@@ -1240,6 +1280,67 @@ def gen_c12_case(rng):
         ops = [("passup",), ("down", nid, None), ("infer", 60)]
     return {"kb": {"preds": preds, "nodes": nodes, "roots": [nid]}, "atoms": atoms, "n_consts": nc,
             "seed": rng.randrange(1 << 30), "ops": ops, "staged": rng.random() < 0.35}
+
+
+# ------------------------------------------------------------------ C18: training first-order models
+
+def run_fol_train(case):
+    """a first-order model that has ALREADY inferred (its tables hold rows created by inference), then Model.train() with the
+    default optimiser; judged on the implementation only: asserted facts must be what reset_bounds() returns to afterwards
+    (facts are not trainable), rows nobody asserted return to their world default, and the bounds train() leaves are those of
+    reset_bounds() + infer()"""
+    import signal
+    import impl
+    L = impl.lnn()
+    impl.take_log()
+    kb = FolKB(case["kb"])
+    asserted = {}
+    for i, g, lo, hi in case["facts"]:
+        kb.model.add_data({kb.obj[i]: {kb.cname(tuple(g)): (float(lo), float(hi))}})
+        asserted[(i, tuple(g))] = (lo, hi)
+    for i, g, lo, hi in case.get("labels", []):
+        kb.model.add_labels({kb.obj[i]: {kb.cname(tuple(g)): (float(lo), float(hi))}})
+    meta = {"errors": [], "bad": None}
+    kb.model.infer(max_steps=8)
+    world = {i: tuple(Fr(float(x)) for x in kb.obj[i].world) for i in kb.order}
+
+    def _alarm(signum, frame):
+        raise TimeoutError()
+
+    signal.signal(signal.SIGALRM, _alarm)
+    signal.alarm(90)
+    try:
+        kb.model.train(losses={L.Loss.SUPERVISED: None, L.Loss.CONTRADICTION: None}, epochs=case.get("epochs", 3),
+                       learning_rate=float(case.get("lr", Fr(1, 8))), max_steps=8)
+    except TimeoutError:
+        meta["errors"].append("timeout")
+        return {"lines": [], "impl": [], "meta": meta}
+    except Exception as e:
+        meta["errors"].append(f"train raised {type(e).__name__}: {str(e)[:200]}")
+        return {"lines": [], "impl": [], "meta": meta}
+    finally:
+        signal.alarm(0)
+    final = {i: kb.table(i) for i in kb.order}
+    kb.model.reset_bounds()
+    for i in kb.order:
+        if type(kb.obj[i]).__name__ in ("Forall", "Exists"):
+            continue
+        for g, b in kb.table(i).items():
+            want = asserted.get((i, g), world[i])
+            if b != want:
+                meta["bad"] = {"problem": "after train(), reset_bounds() does not return to the asserted fact / world default: training "
+                                          "changed the stored data", "formula": i, "grounding": gtxt(g),
+                               "data_or_default": [q(want[0]), q(want[1])], "after_train_and_reset": [q(b[0]), q(b[1])],
+                               "asserted": (i, g) in asserted}
+                return {"lines": [], "impl": [], "meta": meta}
+    kb.model.infer(max_steps=8)
+    again = {i: kb.table(i) for i in kb.order}
+    if again != final:
+        i = next(i for i in kb.order if again[i] != final[i])
+        meta["bad"] = {"problem": "the bounds train() left behind are not those of reset_bounds() + infer()", "formula": i,
+                       "left_behind": {gtxt(g): [q(b[0]), q(b[1])] for g, b in final[i].items()},
+                       "reset_infer": {gtxt(g): [q(b[0]), q(b[1])] for g, b in again[i].items()}}
+    return {"lines": [], "impl": [], "meta": meta}
 
 
 # ------------------------------------------------------------------ C18: losses on first-order models
